@@ -30,27 +30,41 @@ Inductive cop :=
 | CCatch (body : cop)
 | CObj (o : objop) (s : Z).
 
-(* wrapped generator with k resumes left / suspended wrapped coroutine / wrapped async
-   generator suspended inside a step / between steps (one more step ends it) *)
-Inductive slot := SEmpty | SGen (k : Z) | SCo | SAgMid | SAgYield.
+(* wrapped generator not yet started with k resumes to go / suspended at a yield with k
+   resumes left / suspended wrapped coroutine / wrapped async generator suspended inside a
+   step / between steps (one more step ends it) *)
+Inductive slot := SEmpty | SGenFresh (k : Z) | SGenSusp (k : Z) | SCo | SAgMid | SAgYield.
 
 Inductive event := EPrim (t : thread) (p : prim) | EObs (t : thread) | EObsAll.
 
+(* One resume of wrap_generator / wrap_async_generator is
+       enable_by_count(); try: item = g.send(x) | g.throw(exc)  finally: disable_by_count()
+   close() / throw() / dropping a SUSPENDED wrapper raises at the wrapper's own `yield`, is
+   caught there and forwarded to the wrapped generator by one more such turn (the wrapped
+   body's clean-up code - which observes - runs inside it).  On a wrapper that was never
+   started nothing runs.  The bodies used by the driver observe once per resume and once
+   in their clean-up code. *)
+Definition gen_step (t : thread) : list event := [EPrim t En; EObs t; EPrim t Dis].
+
 Definition obj_expand (t : thread) (o : objop) (st : slot) : list event * slot :=
   match o, st with
-  | GNew n, SEmpty | GNewR n, SEmpty => ([], SGen (n + 1))   (* GNewR: the body raises instead of returning *)
-  | GNext, SGen k => ([EPrim t En; EObs t; EPrim t Dis], if k <=? 1 then SEmpty else SGen (k - 1))
-  | GClose, SGen _ | GThrow, SGen _ | GDrop, SGen _ => ([], SEmpty)
+  | GNew n, SEmpty | GNewR n, SEmpty => ([], SGenFresh (n + 1))   (* GNewR: the body raises instead of returning *)
+  | GNext, SGenFresh k | GNext, SGenSusp k => (gen_step t, if k <=? 1 then SEmpty else SGenSusp (k - 1))
+  | GClose, SGenFresh _ | GThrow, SGenFresh _ | GDrop, SGenFresh _ => ([], SEmpty)
+  | GClose, SGenSusp _ | GThrow, SGenSusp _ | GDrop, SGenSusp _ => (gen_step t, SEmpty)
   | CoStart, SEmpty => ([EPrim t En; EObs t], SCo)
   | CoResume, SCo => ([EObs t; EPrim t Dis], SEmpty)
-  | CoClose, SCo | CoThrow, SCo | CoDrop, SCo => ([EPrim t Dis], SEmpty)
+  | CoClose, SCo | CoThrow, SCo | CoDrop, SCo => ([EObs t; EPrim t Dis], SEmpty)
   | AgStart, SEmpty => ([EPrim t En; EObs t], SAgMid)
   | AgResume, SAgMid => ([EObs t; EPrim t Dis], SAgYield)
-  | AgResume, SAgYield => ([EPrim t En; EObs t; EPrim t Dis], SEmpty)
-  | AgClose, SAgMid => ([EPrim t Dis], SEmpty)
-  | AgClose, SAgYield => ([], SEmpty)
+  | AgResume, SAgYield => (gen_step t, SEmpty)
+  | AgClose, SAgMid => ([EObs t; EPrim t Dis], SEmpty)
+  | AgClose, SAgYield => (gen_step t, SEmpty)
   | _, _ => ([], st)
   end.
+
+Definition is_gen_op (o : objop) : bool :=
+  match o with GNew _ | GNewR _ | GNext | GClose | GThrow | GDrop => true | _ => false end.
 
 (* events, new slots, and whether an exception leaves the construct *)
 Fixpoint expand (t : thread) (c : cop) (sl : Z -> slot) : list event * (Z -> slot) * bool :=
